@@ -217,6 +217,15 @@ func (e *Env) term(x *Sx) string {
 		return c
 	case "sentinel":
 		return e.s.sentinelCode(unquote(x.List[1].Atom))
+	case "implements":
+		// (implements "pkg/path.Iface" tokterm): the uninterpreted predicate the engine uses for a type
+		// assertion of an opaque interface value to that interface type
+		uf := q("implements:" + unquote(x.List[1].Atom))
+		if _, done := e.s.declared[uf]; !done {
+			e.s.declared[uf] = "fun"
+			e.s.decls = append(e.s.decls, fmt.Sprintf("(declare-fun %s (Int) Bool)", uf))
+		}
+		return "(" + uf + " " + e.term(x.List[2]) + ")"
 	case "isnil":
 		v := e.val(x.List[1])
 		switch p := v.(type) {
